@@ -13,6 +13,8 @@ from ..lib import driver, gen, ser
 
 ID = "C03"
 LEAN_MODULES = ["TakVerif.Props.C03"]
+# cross-operation sessions (lib/session.py): which operations this property judges
+SESSION = {"kinds": {"allmoves"}}
 NEEDS_STUBS = True
 NEEDS_EXT = True  # the search-reach component imports tak.mcts
 RULE = (
